@@ -39,6 +39,8 @@ TIES = {
                           "signer.Sessions.New (expiry: lifetime cap)", "signer.Sessions.Check",
                           "signer.TimeSigner.Check", "jwt.CheckTime", "roles.subtleStringEq",
                           "roles.checkPassCode"]},
+    "C10": {"area": "Caco", "refine": "CodeRefineBuild", "cands": "CodeCandsBuild",
+            "functions": ["caco3.sameFileStat"]},
     "C17": {"area": "Arch", "refine": "CodeRefine", "cands": "CodeCands",
             "functions": ["ziputil.inDir", "dock.inDir"]},
     "C18": {"area": "Obj", "refine": "CodeRefine", "cands": "CodeCands",
